@@ -10,7 +10,7 @@ from ..translate import namespace_rc
 
 PROP = "C13"
 # checker bits evaluated on what the implementation wrote / loaded
-PROP_BITS = (1, 2, 3, 4, 5)
+PROP_BITS = (1, 2, 3, 4, 5, 6)
 
 
 def sizes(tier):
@@ -23,38 +23,44 @@ def corpus_cases():
     out = {"ser": [], "rd": [], "blk": []}
     for p in sorted(glob.glob(os.path.join(env.VERIF, "corpus", "serialize", "*.json"))):
         c = json.load(open(p, encoding="utf8"))
-        out[c["stream"]].append(c["case"])
+        if c["stream"] in out:           # "known" witnesses are replayed by known_witnesses()
+            out[c["stream"]].append(c["case"])
     return out
 
 
-REALIGN = ("realign-after-reload",
-           "Alignments loaded from its own default TSV keeps the gapped ALIGNMENT strings as msa['seqs'] "
-           "(sca.py add_alignments): align() on the loaded object re-aligns sequences that contain the old gaps and "
-           "differs from align() on the object that was saved")
-
-EDGE = {
-    "dst-hash-taxon": "a doculect name beginning with '#' makes its line of the <dst> block a comment; loading the "
-                      "file raises IndexError (theorem C13_dst_hash_name_refuted)",
-    "scorer-single-symbol": "a scorer over one symbol is written as a single line, which read_scorer takes for a file "
-                            "name; loading the file raises (theorem C13_scorer_single_symbol_refuted)"}
-
-
-def edge_findings(run, cases):
-    """Inputs outside the guards of C13_dst_file_roundtrip / C13_scorer_roundtrip on which the unchanged
-    implementation cannot read its own file.  They are reported as KNOWN-FINDING when known_findings.json lists
-    their signature (status 'known'); otherwise they are only counted in the evidence (candidate_findings)."""
-    known = {e.get("signature") for e in report.known_findings(PROP) if e.get("status") == "known"}
-    seen = {}
-    for c in cases:
-        if any(t.startswith("#") for t in c["taxa"]) and len(c["taxa"]) > 1:
-            seen.setdefault("dst-hash-taxon", c)
-        if len(c["chars"]) == 1:
-            seen.setdefault("scorer-single-symbol", c)
-    for sig, c in seen.items():
-        if sig in known:
-            run.known_finding("%s: %s" % (sig, EDGE[sig]))
-    run.coverage.setdefault("candidate_findings", []).extend([{"signature": k, "what": EDGE[k], "example": {"taxa": c["taxa"], "chars": c["chars"]}}
-                                          for k, c in seen.items() if k not in known])
+def known_witnesses(run, d):
+    """F12 / F13 (known_findings.json, status 'known'): replay the recorded witness (corpus/serialize/known_*.json) on
+    the implementation.  While it still fails in the recorded way - the file cannot be loaded, and the faithful model
+    predicts exactly that (theorems C13_dst_hash_name_refuted / C13_scorer_single_symbol_refuted) - print one
+    KNOWN-FINDING line; a failure of another shape, or a witness without an entry in known_findings.json, is a VIOLATION."""
+    entries = {e.get("signature"): e for e in report.known_findings(PROP) if e.get("status") == "known"}
+    out = {}
+    for p in sorted(glob.glob(os.path.join(env.VERIF, "corpus", "serialize", "known_*.json"))):
+        w = json.load(open(p, encoding="utf8"))
+        sig, case = w["signature"], w["case"]
+        res = ser.blk_run(case)
+        bad = coqrun.eval_cases(d, "known_" + sig.replace("-", "_"), ser.IMPORTS, "blk_case", "blk_case_code",
+                                [ser.BLK.render(case, res)])
+        code = bad.get(0, 0)
+        err = res.get("error", "")
+        if sig == "dst-hash-taxon":
+            recorded = res["dst_load"] is None and "IndexError" in err and res["sc_load"] is not None
+            gone = res["dst_load"] is not None
+        else:
+            recorded = res["sc_load"] is None and "scorer: FileNotFoundError" in err and res["dst_load"] is not None
+            gone = res["sc_load"] is not None
+        out[sig] = "still fails as recorded" if recorded and not code else ("no longer fails" if gone and not code else "fails differently")
+        if recorded and not code and sig in entries:
+            e = entries[sig]
+            run.known_finding("%s %s: %s" % (e.get("id", ""), sig, e.get("what", "")))
+        elif gone and not code:
+            pass                     # repaired: nothing to report (the generated streams check the round trip)
+        else:
+            run.violation({"stream": "known_witness", "signature": sig, "kind": "the witness of a known finding fails in "
+                           "another way than recorded (or is not listed in known_findings.json)", "code": code,
+                           "failed": [ser.BITS[k] for k in range(8) if code >> k & 1], "case": ser.BLK.jsonable(case, res)},
+                          no_input=False)
+    run.coverage["known_witnesses"] = out
 
 
 def main(tier, seed):
@@ -69,12 +75,6 @@ def main(tier, seed):
     corp = corpus_cases()
     total_prop = total_corr = 0
     skipped = []
-    kf = report.known_findings(PROP)
-    known = {e.get("signature") for e in kf if e.get("status") == "known"}
-    enforced = {e.get("signature") for e in kf if e.get("status") == "fixed"}
-    # bit 6 (re-alignment after reload) is a failing input of the property on the unchanged tree (see REALIGN);
-    # it is enforced once known_findings.json records the defect as fixed
-    prop_bits = PROP_BITS + ((6,) if REALIGN[0] in enforced else ())
 
     def on_error(case, kind, e):
         if kind == "unsupported":
@@ -93,18 +93,10 @@ def main(tier, seed):
             if not cases:
                 continue
             steps = ser.expand(cases, on_error)
-            st = driver.run_stream(run, ser.SER, steps, d, name, "ser_case", "ser_case_code", prop_bits, shard=40,
+            st = driver.run_stream(run, ser.SER, steps, d, name, "ser_case", "ser_case_code", PROP_BITS, shard=40,
                                    shrink=False)
             total_prop += st["prop_fail"] + st["impl_errors"]
             total_corr += st["corr_fail"]
-            hits = [i for i, v in st["bad"].items() if v >> 6 & 1]
-            if hits and REALIGN[0] not in enforced:
-                if REALIGN[0] in known:
-                    run.known_finding("%s: %s" % REALIGN)
-                else:
-                    run.coverage.setdefault("candidate_findings", []).append(
-                        {"signature": REALIGN[0], "what": REALIGN[1], "cases": len(hits),
-                         "example": steps[hits[0]]["case"]["data"]})
         rd = corp["rd"] + [ser.gen_textfile(rng) for _ in range(n["reader"])]
         st = driver.run_stream(run, ser.RD, rd, d, "reader", "rd_case", "rd_case_code", PROP_BITS, shard=60)
         total_prop += st["prop_fail"] + st["impl_errors"]
@@ -114,7 +106,7 @@ def main(tier, seed):
                                shrink=False)
         total_prop += st["prop_fail"] + st["impl_errors"]
         total_corr += st["corr_fail"]
-        edge_findings(run, bl)
+        known_witnesses(run, d)
     except coqrun.CoqError as e:
         run.violation({"kind": "model does not evaluate", "no_longer_checks": "Wordlist/SerializeExec.v",
                        "error": str(e)}, no_input=True)
